@@ -27,6 +27,19 @@ def takeSpecies : Nat → List String → List (List Float)
   | k + 1, n :: r => let m := pN n; ((r.take m).map pF) :: takeSpecies k (r.drop m)
   | _, _ => []
 
+/-- species given as dictionaries: per species `m k_1 v_1 … k_m v_m` in insertion order -/
+def takeDicts : Nat → List String → List (List (Nat × Float)) × List String
+  | 0, r => ([], r)
+  | k + 1, n :: r =>
+      let m := pN n
+      let rec pairs : Nat → List String → List (Nat × Float)
+        | 0, _ => []
+        | j + 1, a :: b :: t => (pN a, pF b) :: pairs j t
+        | _, _ => []
+      let (rest, r') := takeDicts k (r.drop (2 * m))
+      (pairs m r :: rest, r')
+  | _, r => ([], r)
+
 def chunks (c : Nat) : Nat → List Float → List (List Float)
   | 0, _ => []
   | r + 1, l => l.take c :: chunks c r (l.drop c)
@@ -96,6 +109,12 @@ def step (ts : List String) : String :=
       let used := sp.foldl (fun a l => a + l.length + 1) 0
       let (S, A, C, _) := rates3 Z (rest.drop used)
       outZ Z (entryMatch genFlags bdSolve Z S A C (pB donor) (pF ne) (pF nD) sp)
+  -- species as {charge: density} dictionaries in insertion order: "mnd Z donor ne nD nsp (m (k v)*)* S A C"
+  | "mnd" :: z :: donor :: ne :: nD :: nsp :: rest =>
+      let Z := pN z
+      let (ds, r) := takeDicts (pN nsp) rest
+      let (S, A, C, _) := rates3 Z r
+      outZ Z (entryMatch genFlags bdSolve Z S A C (pB donor) (pF ne) (pF nD) (speciesOfDicts ds))
   | "mnx" :: k :: z :: donor :: ne :: nD :: nsp :: rest =>
       let Z := pN z
       let sp := takeSpecies (pN nsp) rest
